@@ -180,6 +180,30 @@ def directory_inputs(v, tier, ev, mlar):
                 if rc3 != 0 or so3 != d:
                     v.violation(dict(rec2, kind="cat-content-differs"), dict(name=k, rc=rc3, stderr=se3))
             n += 1
+    # the list of inputs read from standard input (`create ... -`), with names whose first or last character is a blank,
+    # next to names that differ from them only by that blank
+    odd = {"report ": b"trailing blank\n", "report": b"no blank\n", " README": b"leading blank\n", "README": b"plain\n",
+           "two  blanks inside": b"interior\n", "tab\there": b"tab\n"}
+    os.makedirs(os.path.join(wd, "odd"))
+    for k, d in odd.items():
+        open(os.path.join(wd, "odd", k), "wb").write(d)
+    listing = "".join(f"odd/{k}\n" for k in odd)
+    p = subprocess.run([mlar, "create", "-o", os.path.join(wd, "stdin-list.mla"), "-l", "--", "-"], cwd=wd, input=listing.encode(),
+                       stdout=subprocess.PIPE, stderr=subprocess.PIPE, timeout=120, preexec_fn=limit_as)
+    rec = dict(check="cli-observe", cmd="create-stdin-list", keymode="missing", layers="none")
+    if p.returncode != 0:
+        v.violation(dict(rec, kind="transform-failed"), dict(rc=p.returncode, stderr=p.stderr.decode(errors="replace")[-300:]))
+    else:
+        rc, so, se = run(["list", "-i", os.path.join(wd, "stdin-list.mla")])
+        want = {f"odd/{k}": d for k, d in odd.items()}
+        if rc != 0 or sorted(so.decode().split("\n")[:-1]) != sorted(want):
+            v.violation(dict(rec, cmd="list", kind="listing-differs"), dict(rc=rc, got=so.decode()[:300]))
+        else:
+            for k, d in want.items():
+                rc, so, se = run(["cat", "-i", os.path.join(wd, "stdin-list.mla"), "-o", "-", "--", k])
+                if rc != 0 or so != d:
+                    v.violation(dict(rec, cmd="cat", kind="cat-content-differs"), dict(name=k, rc=rc, stderr=se))
+        n += 1
     shutil.rmtree(wd, ignore_errors=True)
     ev["directory_inputs"] = n
     log(f"[C17] create from directories (one directory under two names, links to a file and to an outside directory): {n} archives compared with the walk")
